@@ -237,6 +237,26 @@ Proof.
       rewrite Z.mul_1_l. apply Z.mod_small. destruct w; cbn in *; lia.
 Qed.
 
+Lemma znat_id : forall cap x, (x <= cap)%nat -> znat cap (Z.of_nat x) = x.
+Proof.
+  induction cap as [|c IH]; intros x H; [cbn [znat]; lia|]. cbn [znat].
+  destruct x as [|x']; [reflexivity|].
+  destruct (Z.of_nat (S x') <=? 0) eqn:E; [lia|].
+  replace (Z.of_nat (S x') - 1) with (Z.of_nat x') by lia. rewrite IH by lia. reflexivity.
+Qed.
+
+Lemma znat_app : forall x (p rest : list N), (x <= length p)%nat ->
+  znat (S (length (p ++ rest))) (Z.of_nat x) = x.
+Proof. intros x p rest H. apply znat_id. rewrite app_length. lia. Qed.
+
+Lemma flat_map_len_const : forall {A} (f : A -> list N) k l,
+  (forall x, In x l -> length (f x) = k) -> length (flat_map f l) = (length l * k)%nat.
+Proof.
+  intros A f k. induction l as [|x l IH]; intros H; [reflexivity|].
+  cbn [flat_map length]. rewrite app_length. rewrite (H x (or_introl eq_refl)).
+  rewrite IH by (intros y Hy; apply H; right; exact Hy). lia.
+Qed.
+
 Lemma take_app : forall k (x r : list N), length x = k -> take k (x ++ r) = Some (x, r).
 Proof.
   intros k x r H. unfold take. rewrite app_length.
